@@ -60,9 +60,9 @@ def tok(o):
 def build(o):
     k = o[0]
     if k == 'A':
-        return IPAddress(o[2], o[1])
+        return common.make_addr(o[1], o[2])
     if k == 'N':
-        return IPNetwork((o[2], o[3]), version=o[1])
+        return common.make_net(o[1], o[2], o[3])
     if k == 'R':
         return IPRange(IPAddress(o[2], o[1]), IPAddress(o[3], o[1]))
     if k == 'G':
